@@ -10,7 +10,8 @@
    within that discretisation error, and less than one carried request, of the volume (C11_volume).
    Float layer (binary64 transcription g_for/gauss_run, compared bit-for-bit with the code): the
    carry loses nothing but the rounding of one addition per tick - floor and subtraction are exact
-   (C11_float_carry); composed with the analysis layer in C11_volume_f64.
+   (C11_float_carry) - and every step emits floor(rate) or floor(rate)+1, so no tick exceeds the
+   float-rate peak tick by more than one (C11_float_step, C11_peak_f64); composed with the analysis layer in C11_volume_f64.
    Oracles: math.Exp / math.Erfc. That the density and CDF values f1 computes with them are within
    eps of the real ones is a hypothesis of C11_volume_f64 (eps is Go's libm accuracy, not
    verified); the harness measures the end-to-end volume on every generated parameter set
@@ -122,6 +123,26 @@ Theorem C11_float_carry : forall xs rem os f,
   (Rabs (IZR (zsum os) + B2R f - (fsumR xs + B2R rem)) <= errb xs)%R.
 Proof. exact frun_sum. Qed.
 Print Assumptions C11_float_carry.
+
+(* Each binary64 step emits the floor of its float rate or one more - rate + remainder is never
+   rounded up to floor(rate)+2 (the gap to it exceeds half an ulp: both summands are floats below
+   the next integer and below 1). Hence the property's own bound in the float layer: a tick whose
+   float rate is not above the peak tick's requests at most one more than the peak tick. *)
+Theorem C11_float_step : forall x rem,
+  is_finite x = true -> is_finite rem = true ->
+  (0 <= B2R x <= IZR (2 ^ 52))%R -> (0 <= B2R rem < 1)%R ->
+  Zfloor (B2R x) <= snd (fstep x rem) <= Zfloor (B2R x) + 1.
+Proof. exact fstep_upper. Qed.
+Print Assumptions C11_float_step.
+
+Theorem C11_peak_f64 : forall xk remk xp remp,
+  is_finite xk = true -> is_finite remk = true -> is_finite xp = true -> is_finite remp = true ->
+  (0 <= B2R xk <= IZR (2 ^ 52))%R -> (0 <= B2R xp <= IZR (2 ^ 52))%R ->
+  (0 <= B2R remk < 1)%R -> (0 <= B2R remp < 1)%R ->
+  (B2R xk <= B2R xp)%R ->
+  snd (fstep xk remk) <= snd (fstep xp remp) + 1.
+Proof. exact peak_f64_one. Qed.
+Print Assumptions C11_peak_f64.
 
 (* Composition: if the float rates are within a relative eps of the real rates of the window
    (the accuracy of math.Exp / math.Erfc and of the four multiplications and divisions around
